@@ -163,3 +163,46 @@ func TestVerifC08LitmusReplay(t *testing.T) {
 	}
 	_ = fmt.Sprint
 }
+
+// C08, part (4), thorough tier only: one long hold during which another task keeps trying. "A
+// try-acquire returns false without side effects when someone else holds it" - however often: the
+// number of refusals in one hold runs through the whole 32-bit range and a bit beyond, and every
+// single try must be refused. (A lock word that counts refusals has wrapped by then.)
+type c08Refusals struct {
+	Tries uint64 `json:"tries"`
+}
+
+func TestVerifC08Refusals(t *testing.T) {
+	st := vlib.For("C08")
+	defer vlib.Flush()
+	old := yieldFn
+	yieldFn = runtime.Gosched
+	defer func() { yieldFn = old }()
+	c := c08Refusals{Tries: 1<<32 + 1<<16}
+	box := c08NewBox(0xffffffff, "")
+	defer box.free()
+	l := box.l
+	if !l.TryToAcquire() {
+		vlib.Report(t, "C08", c, vlib.Failf("TryToAcquire of a new lock failed"))
+		return
+	}
+	var fail *vlib.Failure
+	for i := uint64(1); i <= c.Tries; i++ {
+		if l.TryToAcquire() {
+			fail = vlib.Failf("one task holds the lock and never released it; the %d-th TryToAcquire by another task during that hold returned true (the %d before it were refused)", i, i-1)
+			break
+		}
+	}
+	if fail == nil {
+		l.Release()
+		if !l.TryToAcquire() {
+			fail = vlib.Failf("after a hold during which %d tries were refused, the lock was released but cannot be taken", c.Tries)
+		} else {
+			l.Release()
+			fail = box.intact(0xffffffff)
+		}
+	}
+	st.Add("refused_tries_in_one_hold", int64(c.Tries))
+	st.Case(c, true, "billions-of-refused-tries-during-one-hold")
+	vlib.Report(t, "C08", c, fail)
+}
